@@ -38,7 +38,7 @@ def anchorFirst : List (Nat × Bool) → List (Nat × Bool)
 
 def step (st : State) (w : List String) : State × String :=
   match w with
-  | ["mc", "new"] | ["mnz", "new"] | ["mttl", "new"] | ["nsttl", "new"] | ["lease", "new"] | ["rem", "new"] => (st, "ok")
+  | ["mc", "new"] | ["mnz", "new"] | ["mttl", "new"] | ["nsttl", "new"] | ["lease", "new"] | ["rem", "new"] | ["repl", "new"] => (st, "ok")
   | ["ac", "new"] => ({ st with ac := {}, now := 0 }, "ok")
   | ["ac", "now", t] =>
     match t.toInt? with
@@ -100,6 +100,16 @@ def step (st : State) (w : List String) : State × String :=
     | some d, some k =>
       let m := st.cut.boundCutFor d k
       ({ st with cut := m }, s!"{showT m.cut} {m.key}")
+    | _, _ => (st, "bad-op")
+  | ["repl", hv, kind, _ttl, _haveCut, cut, ck] =>
+    match parseT cut, ck.toNat? with
+    | some cut, some ck =>
+      let ans := fun (k : String) => k == "pos" || k == "nx" || k == "nodata"
+      let ok := fun (k : String) => ans k || k == "servfail"
+      if !(ok hv && ok kind) then (st, "bad-op") else
+      match replaceIfCurrent (ans hv == ans kind) cut ck with
+      | some (c, k) => (st, s!"replaced=t cut={showT c} key={k}")
+      | none => (st, "replaced=f none")
     | _, _ => (st, "bad-op")
   | ["rem", stored, ttl, cut, now] =>
     match stored.toInt?, ttl.toInt?, parseT cut, now.toInt? with
